@@ -5,6 +5,7 @@ import (
 	"crypto/ed25519"
 	"encoding/json"
 	"fmt"
+	"github.com/lidofinance/dc4bc/storage/file_storage"
 	"sort"
 	"strings"
 	"time"
@@ -63,7 +64,10 @@ func projectNode(n *HotNode, round string, withPrivate bool) string {
 // (a node rebuilt from the log re-broadcasts reconstructions; those appends
 // must not change the log it is being compared on).
 type frozenHandle struct {
-	w     *World
+	w *World
+	// real, when set, is a real file board holding the same log: reads go through
+	// FileStorage.GetMessages (the JSON lines, the scanner, the decoding)
+	real  storage.Storage
 	log   []storage.Message
 	limit int
 	ign   map[string]struct{}
@@ -79,7 +83,15 @@ func (h *frozenHandle) Send(msgs ...storage.Message) error {
 func (h *frozenHandle) GetMessages(offset uint64) ([]storage.Message, error) {
 	h.w.Gate("board.get", fmt.Sprintf("%d", offset))
 	var out []storage.Message
-	for _, m := range h.log {
+	src := h.log
+	if h.real != nil {
+		ms, err := h.real.GetMessages(offset)
+		if err != nil {
+			return nil, err
+		}
+		src = ms
+	}
+	for _, m := range src {
 		if m.Offset < offset {
 			continue
 		}
@@ -117,11 +129,31 @@ func (h *frozenHandle) UnignoreMessages() {
 // replayNode builds a fresh node with the identity of orig (name, key) on an
 // empty state directory and lets it consume the given log.
 func replayNode(w *World, orig *HotNode, log []storage.Message, tag string, batching bool, restarts bool) (*HotNode, *frozenHandle) {
+	return replayNodeOn(w, orig, log, tag, batching, restarts, false)
+}
+
+// replayNodeOn: with fileBoard the log is first written to a real file board
+// (FileStorage.Send, one message at a time) and the node reads it from there.
+func replayNodeOn(w *World, orig *HotNode, log []storage.Message, tag string, batching bool, restarts bool, fileBoard bool) (*HotNode, *frozenHandle) {
 	idx := len(w.Nodes)
 	nd := &HotNode{Idx: idx, Name: orig.Name, Priv: orig.Priv, Pub: orig.Pub, StateDir: w.Path(fmt.Sprintf("replay_%s_%d", tag, idx)),
 		ks: &memKeyStore{keys: map[string]*keystore.KeyPair{}}}
 	_ = nd.ks.PutKeys(nd.Name, &keystore.KeyPair{Pub: nd.Pub, Priv: nd.Priv})
 	fh := &frozenHandle{w: w, log: log, ign: map[string]struct{}{}, ignO: map[uint64]struct{}{}}
+	if fileBoard {
+		fs, err := file_storage.NewFileStorage(w.Path(fmt.Sprintf("replay_board_%d.log", idx)), w.Path(fmt.Sprintf("replay_board_%d.lock", idx)))
+		if err != nil {
+			panic(err)
+		}
+		for _, m := range log {
+			mm := m
+			if err := fs.Send(mm); err != nil {
+				panic(err)
+			}
+		}
+		fh.real = fs
+		w.Stats.Fault("replay-from-a-real-file-board")
+	}
 	nd.Handle = w.Board.Handle(idx) // unused; Storage is overridden below
 	nd.AltStorage = fh
 	w.Nodes = append(w.Nodes, nd)
@@ -333,9 +365,13 @@ func runC08(w *World, tier string) (bool, interface{}) {
 	variants := []struct {
 		name               string
 		batching, restarts bool
-	}{{"one-tick", false, false}, {"batched-with-restarts", true, true}}
+		fileBoard          bool
+	}{{"one-tick", false, false, false}, {"batched-with-restarts", true, true, false}, {"from-a-file-board", w.Tape.Bool(1, 2, "fileBoardBatching"), false, true}}
 	for _, vr := range variants {
-		rn, _ := replayNode(w, v, L, vr.name, vr.batching, vr.restarts)
+		rn, rfh := replayNodeOn(w, v, L, vr.name, vr.batching, vr.restarts, vr.fileBoard)
+		if rfh.real != nil {
+			defer rfh.real.Close()
+		}
 		for _, r := range rounds {
 			a, b := projectNode(v, r, true), projectNode(rn, r, true)
 			compared++
